@@ -135,7 +135,8 @@ MANIFEST = dict(
          "(subst_total) and accepts v (subst_accepts); the result pins the scalar / every listed element / every given key "
          "(subst_pins_scalar and, at every nesting depth, subst_accepted_carries / subst_generated_carries in Props/C04Carries.lean: whatever the result accepts or generates carries the value — scalars equal, lists element-wise, dicts on every key given — for every schema, the contains form included), makes given keys required (subst_given_required) and keeps schema and "
          "optionality of untouched keys (subst_keeps_rest). Tie: structural comparison of the resulting schema between "
-         "model and code; search: validate / generate / perturb on S % v on the real code.",
+         "model and code; search: validate / generate / perturb on S % v on the real code."
+         " Source pins: the normalised text of every anchor file is compared with the text the model was last validated against; a changed file is a broken obligation (no-failing-input-found unless the search finds an input).",
     note="Partial: hypotheses NoNaN (K6), NoContains (K12: contains-form picks the first substitutable window), "
          "NoOpenDictAlt (K13: a relaxed-dict alternative is dropped) — each with a counter-example theorem replayed on the "
          "real code. Trusted: Lean kernel + standard axioms, hand model (sampling tie), codec.")
